@@ -47,7 +47,7 @@ MC_LOOPS = mcc('MC_Loops', 'MC_Loops', invariants='Inv_Bound Inv_Shrink Inv_Tab;
 MC_CSSTOK = mcc('MC_CssTok', 'MC_CssTok', invariants='(enumeration) every style sheet of at most MaxLen tokens over the alphabet is emitted and replayed: as user / agent sheet (Ok or CssParseError, no panic / hang) and inside <style> against the same document without it')
 MC_CSSSYN = mcc('MC_CssSyntax', 'MC_CssSyntax', invariants='Inv_Syntax (on every well-formed sheet the transcription of parse_stylesheet keeps exactly the rule sets the CSS Syntax reference keeps), Inv_Stop (and reads it to the end); every sheet emitted and replayed')
 MC_CSSSYN_DEEP = mcc('MC_CssSyntax', 'MC_CssSyntaxDeep', invariants='Inv_Syntax, Inv_Stop over a smaller alphabet and longer sheets (blocks nested in declaration values)')
-MC_CSSSYN_COMB = mcc('MC_CssSyntax', 'MC_CssSyntaxComb', invariants='Inv_Syntax, Inv_Stop over selector preludes: compounds, the child combinator, the unsupported sibling combinators + and ~, commas, good rule sets and a selector-less block (sheets of <= 4, thorough 6, atoms over 8)')
+MC_CSSSYN_COMB = mcc('MC_CssSyntax', 'MC_CssSyntaxComb', invariants='Inv_Syntax, Inv_Stop over selector preludes: compounds, the child combinator, the unsupported sibling combinators + and ~, commas, good rule sets and a selector-less block and :nth-child tokens (sheets of <= 4, thorough 6, atoms over 10)')
 MC_SELECTOR = mcc('MC_Css', 'MC_Selector', invariants='Inv_Selector (RefMatch = DoMatches on every node)')
 MC_SELECTOR_ID = mcc('MC_Css', 'MC_SelectorId', invariants='Inv_Selector over trees and selectors with ids (fewer nodes)')
 MC_SELECTOR_LONG = mcc('MC_Css', 'MC_SelectorLong', invariants='Inv_Selector over selectors of three compounds (fewer nodes, no ids): html / body above the generated nodes give every combinator chain something to walk')
@@ -118,7 +118,7 @@ PLANS = {
         fams=[('c08', dict(quick=3000, thorough=60000), {})],
         mc=[MC_BLOCK],
         nontrivial=lambda rec: bool(rec.get('runs')) and rec['runs'][0]['res']['k'] == 'ok' and any(len(l) > 3 and l[0][0] == 91 and l[-1][0] != 93 and any(c[0] == 58 for c in l[:6]) for l in rec['runs'][0]['res']['lines']),
-        rule='grammar documents biased to many links (unique letter texts, repeated hrefs) in paragraphs, lists, quotes, headings, table cells, nested tables; widths 10..120; decorators plain/trivial/rich/plain_nd; each case rendered with link_footnotes(true) and (false); the expected footnote block is laid out by the specification (Render!FmtLink); non-trivial = Ok with a footnote block; distinct by sha256(runs)',
+        rule='grammar documents biased to many links (unique letter texts, repeated hrefs) in paragraphs, lists, quotes, headings, table cells, nested tables, and (one case in eight) links nested in a link through the cells of a table it holds (references then appear in the post-order of the link tree); widths 10..120; decorators plain/trivial/rich/plain_nd; each case rendered with link_footnotes(true) and (false); the expected footnote block is laid out by the specification (Render!FmtLink); non-trivial = Ok with a footnote block; distinct by sha256(runs)',
         assumptions=['inside side-by-side table cells a reference may be cut by the cell boundary: there only membership in 1..n and uniqueness of complete references are checked, the footnote block is always checked exactly'],
     ),
     'C09': dict(
@@ -132,14 +132,14 @@ PLANS = {
         fams=[('c05', dict(quick=5000, thorough=60000), {})],
         mc=[MC_TABLE],
         nontrivial=lambda rec: bool(rec.get('runs')) and rec['runs'][0]['res']['k'] == 'ok' and any(c[0] in (9516, 9524, 9532) for ln in rec['runs'][0]['res']['lines'] for c in ln),
-        rule='MC: every regular table of the scope (<= 2 rows, 2-3 columns, all colspan tilings, cell classes empty/short/two-word/wide) at every width of the config, rendered step by step; random: regular tables 1..5 x 1..6 with tiling colspans, cells empty/short/long/multi-line/wide, nested regular tables, thead/tbody, widths 1..100, plain decorator; non-trivial = Ok with at least one junction glyph; distinct by sha256(runs)',
+        rule='MC: every regular table of the scope (<= 2 rows, 2-3 columns, all colspan tilings, cell classes empty/short/two-word/wide) at every width of the config, rendered step by step; random: regular tables 1..5 x 1..6 with tiling colspans, cells empty/short/long/multi-line/wide, nested regular tables, thead/tbody, widths 1..100, plain decorator, one case in five rendered from a clone of the render tree (staged calls); non-trivial = Ok with at least one junction glyph; distinct by sha256(runs)',
         assumptions=['the output is read as a display-column grid using the harness cell widths', 'a table without any bar and with ragged lines is read as the stacked layout'],
     ),
     'C06': dict(
         fams=[('c06', dict(quick=5000, thorough=60000), {})],
         mc=[MC_TABLE],
         nontrivial=lambda rec: bool(rec.get('runs')) and rec['runs'][0]['res']['k'] == 'ok' and any(c[0] == 9474 for ln in rec['runs'][0]['res']['lines'] for c in ln),
-        rule='as C05 without nesting; every non-empty cell is filled with copies of its own unique character, so that the strip (display columns) and the lines of every cell can be read off the output; MC additionally checks on every table of the scope that the column allocation fits the width, never starves a column that holds text, and that the shrink loop cannot get stuck (Inv_Alloc); non-trivial = Ok with at least one vertical bar; distinct by sha256(runs)',
+        rule='as C05 without nesting (one case in five from a cloned render tree likewise); every non-empty cell is filled with copies of its own unique character, so that the strip (display columns) and the lines of every cell can be read off the output; MC additionally checks on every table of the scope that the column allocation fits the width, never starves a column that holds text, and that the shrink loop cannot get stuck (Inv_Alloc); non-trivial = Ok with at least one vertical bar; distinct by sha256(runs)',
         assumptions=['separation (iii) is checked between horizontally adjacent non-empty cells'],
     ),
     'C10': dict(
@@ -176,14 +176,14 @@ PLANS = {
         drift_prop=dict(src='MC_CssSyntax', prop='C20'),
         timeout_ms=dict(quick=30000, thorough=120000),
         nontrivial=lambda rec: len(rec.get('runs', [])) >= 1 and rec['runs'][0]['res']['k'] in ('ok', 'csserr') and (len(rec['runs']) == 1 or any(len(x) > 2 and any(t[0] in ('Fg', 'Bg') for t in x[2]) for ln in rec['runs'][0]['res']['lines'] for x in ln) or rec['runs'][0]['route'] == 'string'),
-        rule='MC (parser model, CssSyntax.tla): every sheet of <= 4 (thorough 5) atoms over 14 (22) atoms - tokens incl. the child combinator, whole good rule sets and a block without selector - and of <= 5 (7) atoms over 8, and of <= 4 (6) atoms over the 8 of selector preludes (compounds, `>`, the unsupported `+` and `~`, commas, good rule sets): invariants on the model, then each sheet in <style> of a fixed document: well-formed sheets against the canonical text of their reference rules (variant), the others for totality, all against the colours the model predicts (drift); MC (enumeration): every sequence of <= 3 (thorough 4) CSS tokens from an alphabet of 26 (30) token spellings, as user sheet, agent sheet and <style> content; random, three shapes: (total) add_css / add_agent_css with truncations of valid sheets, token soup over the CSS token alphabet, byte-mutated sheets: Ok or CssParseError under a watchdog; (inert) a document with <style>s</style> (s without display / content / white-space / height / overflow) against the same document without it: same result kind and letters; (variant) a valid sheet of 1-4 colour rules in canonical spelling against a variant (spacing, comments, upper-case properties and hex digits, rgb() spelling, final ; dropped or doubled, unknown properties, @import / @media / @font-face / unparsable rule sets in between), via <style> or add_css: equal rich renderings; distinct by sha256(runs)',
+        rule='MC (parser model, CssSyntax.tla): every sheet of <= 4 (thorough 5) atoms over 14 (22) atoms - tokens incl. the child combinator, whole good rule sets and a block without selector - and of <= 5 (7) atoms over 8, and of <= 4 (6) atoms over the 10 of selector preludes (compounds, `>`, the unsupported `+` and `~`, commas, :nth-child tokens, good rule sets): invariants on the model, then each sheet in <style> of a fixed document: well-formed sheets against the canonical text of their reference rules (variant), the others for totality, all against the colours the model predicts (drift); MC (enumeration): every sequence of <= 3 (thorough 4) CSS tokens from an alphabet of 26 (30) token spellings, as user sheet, agent sheet and <style> content; random, three shapes: (total) add_css / add_agent_css with truncations of valid sheets, token soup over the CSS token alphabet, byte-mutated sheets: Ok or CssParseError under a watchdog; (inert) a document with <style>s</style> (s without display / content / white-space / height / overflow) against the same document without it: same result kind and letters; (variant) a valid sheet of 1-4 colour rules in canonical spelling against a variant (spacing, comments, upper-case properties and hex digits, rgb() spelling, final ; dropped or doubled, unknown properties, @import / @media / @font-face / unparsable rule sets in between), via <style> or add_css: equal rich renderings; distinct by sha256(runs)',
         assumptions=['the character-level tokenizer is explored, not modelled; the statement level of the parser (rule sets, declarations, values, recovery) is modelled at token level in CssSyntax.tla (DESIGN.md section 11)'],
     ),
     'C18': dict(
         fams=[('c18', dict(quick=2500, thorough=50000), {})],
         mc=[MC_HIDE],
         nontrivial=lambda rec: len(rec.get('runs', [])) >= 2 and rec['runs'][0]['res']['k'] == 'ok' and (len(rec['runs']) < 3 or rec['runs'][0]['res'] != rec['runs'][2]['res']),
-        rule='block-grammar documents (lists, quotes, headings, links, tables, pre) in which random subtrees (incl. li, td, tr, table, a, headings) are hidden through a class rule, an id rule, an element rule, an inline style, or the height:0 + overflow:hidden idiom (rule or inline); run 1 = the document with use_doc_css, run 2 = the document with those subtrees deleted, runs 3/4 = use_doc_css off against the document stripped of its style element and style attributes; the predicate also checks that the deleted document is Css!DeleteHidden of the original (reference selector + cascade semantics); widths 1..100; non-trivial = hiding changes the output; distinct by sha256(runs)',
+        rule='block-grammar documents (lists, quotes, headings, links, tables, pre) in which random subtrees (incl. li, td, tr, table, a, headings) are hidden through a class rule, an id rule, an element rule, an inline style, or the height:0 + overflow:hidden idiom (rule or inline); one case in eight: a chain of 3-5 nested blocks with repeating names and classes and a display:none rule of 2-4 compounds joined by child / descendant combinators that reaches (or just misses) a span at the bottom, so that matching has to backtrack over the ancestors; run 1 = the document with use_doc_css, run 2 = the document with those subtrees deleted, runs 3/4 = use_doc_css off against the document stripped of its style element and style attributes; the predicate also checks that the deleted document is Css!DeleteHidden of the original (reference selector + cascade semantics); widths 1..100; non-trivial = hiding changes the output; distinct by sha256(runs)',
         assumptions=['hidden sets are constructed by marking (the generator never evaluates selectors); the specification re-derives them with RefMatch / RefCascade and a disagreement is a tool error'],
     ),
     'C19': dict(
